@@ -297,6 +297,10 @@ class Engine:
             ek = self.prog.enum_key('::'.join(segs[:-1]))
             if ek is not None and segs[-1] in self.prog.enums[ek]: return adt(ek, segs[-1], fields)
         last = segs[-1]
+        if len(segs) == 1:
+            # trimmed path of a variant (`Equal`, `None`): the unique enum that has a variant of this name
+            c = [k for k, vs in self.prog.enums.items() if last in vs]
+            if len(c) == 1: return adt(c[0], last, fields)
         if last == 'Complex' or p.endswith('Complex'): return ('cplx', fields[0], fields[1])
         return adt(p, None, fields)
 
